@@ -46,13 +46,23 @@ func init() {
 		Title:     "Tag lists behave as ordered maps",
 		Technique: "reference-model monitor (ordered map) over random operation sequences on b6.Tags",
 		Rule: "case = random operation sequence (ModifyOrAddTag, AddTag of an absent key, RemoveTag, RemoveTags with present/absent/all keys, " +
-			"MergeFrom, Clone, Get; the arguments of RemoveTags and MergeFrom must be left as given) on a tag list with distinct keys from an 8-key alphabet; distinct = distinct operation script; " +
+			"MergeFrom, Clone, Get; the arguments of RemoveTags and MergeFrom must be left as given) on a tag list with distinct keys from an 8-key alphabet (one case in eight: 60-200 keys, the list nearly full); distinct = distinct operation script; " +
 			"non-trivial = at least one removal hit a present key on a list of >= 2 tags",
 		Assumptions: []string{"tag values are string expressions compared through String()"},
 		Quick:       20000, Thorough: 2000000,
-		Required: []string{"remove_present", "removetags_multi_present", "merge_shorter", "merge_longer", "modify_existing", "argument_checked"},
+		Required: []string{"remove_present", "removetags_multi_present", "merge_shorter", "merge_longer", "modify_existing", "argument_checked", "long_list"},
 		Run: func(c *core.Ctx) {
 			r := c.R
+			// one case in eight works on a long list (up to 200 distinct keys): lists
+			// longer than a machine word has bits, a byte has values, ...
+			keys := keys
+			if c.Index%8 == 5 {
+				keys = nil
+				for i, n := 0, r.Range(60, 200); i < n; i++ {
+					keys = append(keys, fmt.Sprintf("k%03d", i))
+				}
+				c.Count("long_list")
+			}
 			var tags b6.Tags
 			var model []c39kv
 			var script []string
@@ -67,7 +77,11 @@ func init() {
 			nval := 0
 			newVal := func() string { nval++; return fmt.Sprintf("v%d", nval) }
 			// initial list
-			for _, i := range r.Perm(len(keys))[:r.Intn(len(keys)+1)] {
+			ninit := r.Intn(len(keys) + 1)
+			if len(keys) > 8 {
+				ninit = len(keys) - r.Intn(10)
+			}
+			for _, i := range r.Perm(len(keys))[:ninit] {
 				v := newVal()
 				tags.AddTag(b6.Tag{Key: keys[i], Value: b6.NewStringExpression(v)})
 				model = append(model, c39kv{keys[i], v})
